@@ -65,7 +65,7 @@ class Obligations:
         f["panic"] += sum(1 for r in results if r.kind == "panic")
         for r in results:
             if len(r.pc) >= 1:
-                self.nontrivial_paths.add((fname, tuple(str(c) for c in r.pc)))
+                self.nontrivial_paths.add((fname, tuple(c.get_id() if z3.is_expr(c) else c for c in r.pc)))
         return stuck
 
 
